@@ -3,6 +3,8 @@ mod c19;
 mod common;
 mod conc;
 mod conc_checks;
+mod faults;
+mod grid;
 mod model;
 mod rec;
 mod seq_checks;
@@ -44,10 +46,31 @@ fn main() {
                     conc_checks::run_into(&mut r, p, tier, 0.5);
                     r.finish()
                 }
-                "C01" | "C02" | "C04" | "C06" | "C07" | "C10" | "C11" => {
+                "C02" => {
+                    let mut r = common::Report::new(p, tier, "model_checking");
+                    seq_checks::run_into(&mut r, p, tier, 1.0);
+                    let t = grid::c02_builder();
+                    for f in &t.failures {
+                        r.violation(
+                            f.clone(),
+                            serde_json::json!({"engine": "grid", "property": "C02", "case": f}),
+                        );
+                    }
+                    r.add_cov_u64("evaluations", t.evaluations);
+                    r.add_cov_u64("match_result_builder_sequences", t.evaluations);
+                    r.append_cov("samples", t.samples.clone());
+                    r.concat_cov("rule", "engine G: every sequence of <= 4 transactions with quantities in {0,1,2,3,MAX} appended to MatchResult::new(id, q), q in {0..6,MAX}, sum <= q: remaining = q - sum, is_complete <=> remaining = 0, executed_quantity = sum");
+                    r.finish()
+                }
+                "C01" | "C04" | "C06" | "C07" | "C10" | "C11" => {
                     seq_checks::run(p, tier)
                 }
                 "C19" => c19::run(tier),
+                "C05" => grid::run_c05(tier),
+                "C16" => grid::run_c16(tier),
+                "C17" => grid::run_c17(tier),
+                "C18" => faults::run_c18(tier),
+                "C09" => faults::run_c09(tier),
                 "C03" | "C08" | "C12" | "C13" | "C14" => conc_checks::run(p, tier),
                 _ => {
                     eprintln!("unknown property {p}");
